@@ -98,12 +98,24 @@ def part_of(name):
 
 
 def check_msg_case(case, acc, base=None):
-    """case: {'msg': name, 'enc':, 'hex':, 'mut': [...]}"""
+    """case: {'msg': name, 'enc':, 'hex':, 'mut': [...]}; with 'via': 'reader' the mutated message is the middle record
+    of a three-record file read through IpmReader (whatever the reader itself does with a decoded record - counting,
+    checking administrative messages - is then part of what must not crash)"""
     if base is None:
         base = corpus.encoded(case['msg'], case['enc'], case['hex'])
     data, struct, cfg, cfgname = base
     mut = case['mut']
     bad = faults.apply(data, tuple(mut))
+    if case.get('via') == 'reader':
+        blocked = bool(len(bad) % 2)
+        stream = vbs_ref.frame([data, bad, data])
+        out = read_file(blk_ref.block(stream) if blocked else stream, 'ipm', blocked, case['enc'])
+        acc.case((case['msg'], case['enc'], 'reader', repr(mut)), nontrivial=mut[0] != 'none', outcome='reader:' + out)
+        if out.startswith('BAD'):
+            pos = mut[1] if len(mut) > 1 and isinstance(mut[1], int) else 0
+            acc.viol('c07.reader_msg.%s' % out[4:], case, out, 'records then stop or MciIpmDataError',
+                     '%s of %s in record 2 of 3' % (list(mut), where_of(struct, min(pos, len(data) - 1))))
+        return
     out = classify_loads(bad, cfg, case['enc'], case['hex'])
     acc.case((case['msg'], case['enc'], case['hex'], repr(mut)), nontrivial=mut[0] != 'none', outcome=out)
     if out.startswith('BAD'):
@@ -199,6 +211,8 @@ def run_msg_task(task, acc):
     part, of = task['part'], task['of']
     for i in range(part, len(muts), of):
         case = {'kind': 'msg', 'msg': task['msg'], 'enc': task['enc'], 'hex': task['hex'], 'mut': list(muts[i])}
+        if task.get('via'):
+            case['via'] = task['via']
         if task.get('shapes'):
             core.note_current(case)
         if i == part + of:
@@ -260,7 +274,10 @@ def check_cfgseq_case(case, acc):
         elif step == 'fixed5':
             cfg[bit] = dict(saved, field_type='FIXED', field_length=5)
         elif step == 'int':
-            cfg[bit] = dict(saved, field_python_type='int')
+            # retyped as a plain number: a processor (PDS, ICC, DE43, PAN) works on text / bytes, "processor + numeric
+            # type" is a contradictory entry, not a configuration the property speaks about
+            cfg[bit] = {k: v for k, v in dict(saved, field_python_type='int').items()
+                        if k not in ('field_processor', 'field_processor_config')}
         out = classify_loads(data, cfg, case['enc'], case['hex'])
         acc.outcome('cfgseq:' + out.split('@')[0])
         if out.startswith('BAD'):
@@ -402,7 +419,7 @@ CLI_CASES += [dict(c, tool='mideu') for c in CLI_CASES]
 
 
 CLI2_TOOLS = ['mci_ipm_to_csv', 'mideu_extract', 'mideu_convert', 'mci_ipm_to_csv_argv', 'paramconv']
-CLI2_BASES = ['plain', 'pds', 'icc', 'de43', 'min']
+CLI2_BASES = ['plain', 'pds', 'icc', 'de43', 'min', 'trailer', 'header']
 
 
 def cli2_mutations(name, tier):
@@ -495,6 +512,12 @@ def tasks(tier, seed):
             if name == 'wide' and enc != 'latin_1':
                 continue
             ts.append({'t': 'msg', 'msg': name, 'enc': enc, 'hex': hx, 'part': 0, 'of': 1, 'tier': tier, 'shapes': True})
+    # the same mutation sets of the administrative messages (and two ordinary ones), read through IpmReader
+    for name in ('trailer', 'header', 'plain', 'pds'):
+        for enc in ('latin_1', 'cp500'):
+            for part in range(of):
+                ts.append({'t': 'msg', 'msg': name, 'enc': enc, 'hex': False, 'part': part, 'of': of, 'tier': tier,
+                           'via': 'reader'})
     k = 3 if tier == 'quick' else 5
     for cfgname in ('PKG', 'CUSTOM', 'GEN%d' % (seed % 14)):
         if cfgname == 'CUSTOM':
